@@ -177,24 +177,25 @@ func (e naiveEngine) oneStepEvalPremise(premise ast.Term, subst unionfind.UnionF
 			return nil
 		})
 	case ast.NegAtom:
-		a, err := functional.EvalAtom(p.Atom, subst)
+		// A negated atom holds iff no fact unifies with it.
+		nsolutions, err := premiseNegAtom(p.Atom, e.store, subst)
 		if err != nil {
 			return nil
 		}
-		e.store.GetFacts(a, func(fact ast.Atom) error {
-			if _, err := unionfind.UnifyTermsExtend(p.Atom.Args, fact.Args, subst); err != nil {
-				solutions = append(solutions, subst)
-			}
-			return nil
-		})
+		return nsolutions
 	case ast.Eq:
-		if newsubst, err := unionfind.UnifyTermsExtend([]ast.BaseTerm{p.Left}, []ast.BaseTerm{p.Right}, subst); err == nil {
-			solutions = append(solutions, newsubst)
+		// Function expressions are evaluated before unification.
+		nsolutions, err := premiseEq(p.Left, p.Right, subst)
+		if err != nil {
+			return nil
 		}
+		return nsolutions
 	case ast.Ineq:
-		if _, err := unionfind.UnifyTermsExtend([]ast.BaseTerm{p.Left}, []ast.BaseTerm{p.Right}, subst); err != nil {
-			solutions = append(solutions, subst)
+		nsolutions, err := premiseIneq(p.Left, p.Right, subst)
+		if err != nil {
+			return nil
 		}
+		return nsolutions
 	}
 	return solutions
 }
